@@ -341,8 +341,10 @@ def fmt(w):
 
 
 class Judge:
-    def __init__(self, prop):
+    def __init__(self, prop, known_matcher=None):
         self.prop = prop
+        self.known_matcher = known_matcher
+        self.known_hits = {}
         self.events = 0
         self.judged = 0
         self.outside = 0
@@ -361,15 +363,24 @@ class Judge:
 
     def viol(self, op, kind, ins, outs, detail):
         self.viol_total += 1
+        rec = {
+            'property': self.prop, 'cfg': 'std', 'op': op, 'kind': kind,
+            'inputs': [hexw(w) for w in ins], 'outputs': [hexw(w) for w in outs],
+            'inputs_f64': [fmt(w) for w in ins], 'outputs_f64': [fmt(w) for w in outs],
+            'detail': detail,
+        }
+        # violations matching a recorded known finding are tallied apart so that they can never
+        # use up the per-key record cap and hide a different violation of the same (op, kind)
+        if self.known_matcher is not None:
+            kid = self.known_matcher(rec)
+            if kid is not None:
+                h = self.known_hits.setdefault(kid, {'count': 0, 'example': rec})
+                h['count'] += 1
+                return
         k = (op, kind)
         self.viol_keys[k] = self.viol_keys.get(k, 0) + 1
         if self.viol_keys[k] <= 12:
-            self.viols.append({
-                'property': self.prop, 'cfg': 'std', 'op': op, 'kind': kind,
-                'inputs': [hexw(w) for w in ins], 'outputs': [hexw(w) for w in outs],
-                'inputs_f64': [fmt(w) for w in ins], 'outputs_f64': [fmt(w) for w in outs],
-                'detail': detail,
-            })
+            self.viols.append(rec)
 
     def line(self, ln):
         p = ln.split()
@@ -484,7 +495,7 @@ class Judge:
             'violation_keys': [{'op': k[0], 'kind': k[1], 'count': v} for k, v in self.viol_keys.items()],
             'panics': self.panics, 'touch': [[s, i, n] for (s, i), n in sorted(self.touch.items())],
             'consts': self.consts, 'distinct': len(self.distinct), 'samples': self.samples,
-            'end_seen': self.end_seen, 'harness_events': self.harness_events,
+            'end_seen': self.end_seen, 'harness_events': self.harness_events, 'known_hits': self.known_hits,
         }
 
 
